@@ -369,7 +369,7 @@ func (r *rig) actors() []gx.Actor {
 						out.Violate("C06", "mark-lowered-position", "MarkOffset(%d) lowered the pending position from %d to %d", target, b0, a0)
 					})
 				}
-				if kind == "reset" && a0 > b0 && b0 >= 0 {
+				if kind == "reset" && a0 > b0 && (b0 >= 0 || a0 >= 0) {
 					r.viol = append(r.viol, func(out *gx.Outcome) {
 						out.Violate("C06", "reset-raised-position", "ResetOffset(%d) raised the pending position from %d to %d", target, b0, a0)
 					})
@@ -384,6 +384,9 @@ func (r *rig) actors() []gx.Actor {
 			acts = append(acts, do("mark", cur-1))
 		}
 		acts = append(acts, do("reset", cur))
+		// a reset ABOVE the pending position (also when nothing is stored yet and the position is the configured initial
+		// one): it must change nothing
+		acts = append(acts, do("reset", cur+1))
 		if cur >= 2 {
 			acts = append(acts, do("reset", 0)) // back to the very beginning (with constant metadata: the all-zero pair)
 		}
